@@ -160,11 +160,13 @@ let run (path : string) =
            if cls <> "err" then mismatch ~case:!case ~step:!step ~field:"dep.result" ~model:("err" ^ zs c) ~impl:cls
          | Base.Panic -> if cls <> "panic" then mismatch ~case:!case ~step:!step ~field:"dep.result" ~model:"panic" ~impl:cls);
         last_bid := None; last_tick := false
-      | "op" :: "start" :: aid :: coll :: target :: fee :: bonus :: init :: intk :: cmst :: now :: ac :: pc :: ad :: pd :: cls :: _ ->
+      | "op" :: "start" :: aid :: coll :: target :: fee :: bonus :: init :: intk :: cmst :: now :: ac :: pc :: ad :: pd :: cls :: more ->
         incr step; incr steps; bump "op:start"; bump ("start:init=" ^ init);
         Buffer.add_string sig_ (";S" ^ init ^ ":" ^ coll ^ ":" ^ target);
         let lk = { l_coll = z coll; l_target = z target; l_fee = z fee; l_bonus = z bonus; l_init = z init;
-                   l_intk = bool_of_tok intk; l_cmst = bool_of_tok cmst } in
+                   l_intk = bool_of_tok intk; l_cmst = bool_of_tok cmst;
+                   l_stuck = (match more with st :: _ -> bool_of_tok st | [] -> false) } in
+        if lk.l_stuck then bump "start:lend_bridged_position_gone";
         Hashtbl.replace targets aid lk;
         (match activate !cf lk (z now) (zopt ac pc) (zopt ad pd) with
          | Base.Ok a -> live := !live @ [ { aid; lk; au = a; ipaid = zzero; irecv = zzero } ]
@@ -217,7 +219,10 @@ let run (path : string) =
               bump ("bid:err" ^ zs c);
               if cls <> "err" then mismatch ~case:!case ~step:!step ~field:"bid.result" ~model:("err" ^ zs c) ~impl:cls
             | Base.Panic ->
-              if cls <> "panic" then mismatch ~case:!case ~step:!step ~field:"bid.result" ~model:"panic" ~impl:cls));
+              if cls <> "panic" then mismatch ~case:!case ~step:!step ~field:"bid.result" ~model:"panic" ~impl:cls
+              else if kf_C10_7 m.lk then
+                (* a bid that would close the auction panics in MsgCloseDutchAuctionForBorrow: the auction can never end *)
+                predfail ~case:!case ~step:!step ~pred:"lend_close_completes" ~kf:"kf_C10_7" ~detail:("aid=" ^ aid ^ "_amount=" ^ amt)));
         (* a panicking bid is a refused message (baseapp recovers, the cache context is dropped): the
            property does not forbid it, so it is NOT a predicate failure by itself - demanding
            "a bid never panics" was more than C10 states (seen in the thorough tier: a bid whose
